@@ -22,6 +22,7 @@ from .judge import judge
 
 NAN, PINF, NINF, PHUGE, NHUGE, ERR, OFF = 9999, 9001, -9001, 8001, -8001, 7070, 7777
 ITEMS = ["kiwi", "apple", "pear", "fig", "date"]        # deliberately not in sorted order
+ITEMS_MIXED = ["depot", 7, 2.5, "apple", 3]             # the label encoder documents mixed integers, floats and strings
 
 RULE = ("cases = every state of Domain.tla's bounded space (definitions x probe values incl. out-of-range, boundary, "
         "fractional, huge, +-inf, NaN; multi-variables with 0..3 children; task lists of 1..2(3) variables from a "
@@ -73,7 +74,7 @@ def build(m, d: dict, name: str, mismatch: bool = False):
     if t == "disc":
         return m.DiscreteVariable(name=name, choices=[f"c{k}" for k in range(d["n"])])
     if t == "perm":
-        return m.PermutationVariable(name=name, items=ITEMS[:d["n"]])
+        return m.PermutationVariable(name=name, items=(ITEMS_MIXED if d.get("mixed") else ITEMS)[:d["n"]])
     if t in ("contmulti", "multiobj"):
         cls = m.ContinuousMultiVariable if t == "contmulti" else m.MultiObjectiveVariable
         lbs = [k["lb"] / 2 for k in d["kids"]]
@@ -152,7 +153,8 @@ def run_case(m, c: dict, rid: int) -> dict:
                 r["dec"] = -1
     elif k == "perm":
         n = c["n"]
-        var = build(m, {"t": "perm", "n": n}, "p")
+        mixed = sum(int(x) for x in c["v"]) % 2 == 1           # half of the cases use items of mixed types
+        var = build(m, {"t": "perm", "n": n, "mixed": mixed}, "p")
         v = [float(x) for x in c["v"]]
         out = var.correct(v)
         out2 = var.correct(out)
@@ -160,7 +162,11 @@ def run_case(m, c: dict, rid: int) -> dict:
         r["out2"] = [int(x) for x in out2] if isinstance(out2, list) else []
         base = var.decode(list(range(n)))
         try:
-            r["dec"] = [base.index(lbl) for lbl in var.decode(out)]
+            got = var.decode(out)
+            r["dec"] = [base.index(lbl) for lbl in got]
+            # a rearrangement of the DECLARED items: same items, same types
+            if sorted(map(repr, got)) != sorted(map(repr, var.items)):
+                r["dec"] = []
         except Exception:
             r["dec"] = []
         samples = seeded(lambda: [var.randomize() for _ in range(10)], rid)
@@ -292,6 +298,25 @@ def run_task(m, c: dict) -> dict:
     x = [perm_pat(c["pat"], d["n"]) if d["t"] == "perm" else PAT[c["pat"]](i + 1) for i, d in enumerate(defs)]
     r["x"] = x
     xv = [[float(q) for q in v] if d["t"] == "perm" else dec(v) for d, v in zip(defs, x)]
+    # "correction acts coordinate-wise with the owning variable's rule": compare with the variables' own correct(),
+    # for a list and for a numpy array argument, non-finite coordinates included
+    own = None
+    try:
+        fv = task.get_variables()
+        own = [v_.correct(q) for v_, q in zip(fv, xv)]
+    except Exception:
+        own = None
+    r["correct_eq_own"] = True
+    if own is not None:
+        for arg in (xv, (np.array(xv, dtype=float) if all(d["t"] != "perm" for d in defs) else None)):
+            if arg is None:
+                continue
+            try:
+                got = task.correct_solution(arg)
+                if repr(list(got)) != repr(own):
+                    r["correct_eq_own"] = False
+            except Exception:
+                r["correct_eq_own"] = False
     y = None
     try:
         y = task.correct_solution(xv)
